@@ -9,6 +9,9 @@ From BV Require Import Base.Prelude Model.Block Model.ForkDB Model.Forkable Mode
   Proofs.C07_ComposeStack Proofs.C07_Raw.
 Local Open Scope N_scope.
 
+Lemma list_eq_nil_or_cons {A} (l : list A) : l = [] \/ exists x r, l = x :: r.
+Proof. destruct l as [|x r]; [left; reflexivity | right; exists x, r; reflexivity]. Qed.
+
 Lemma sfold_undos : forall us J0 J', Forall (fun e => estep e = SUndo) us -> sfold J0 us = Some J' -> exists M, J0 = M ++ J'.
 Proof.
   induction us as [|e us IH]; intros J0 J' Hu H.
